@@ -6,6 +6,7 @@ import (
 	"errors"
 	"flag"
 	"fmt"
+	"hash/fnv"
 	"math/rand"
 	"os"
 	"runtime"
@@ -93,6 +94,8 @@ type decEvent struct {
 	Views map[string]*view  `json:"views,omitempty"` // through BaseMetrics()/TemporalMetrics()
 	Proj  map[string]*proj  `json:"proj,omitempty"`  // independent lower-level decode of the projection
 	Re    *redec            `json:"re,omitempty"`    // decoding the encoding again
+	Long  bool              `json:"long,omitempty"`  // input longer than 300 bytes (not reproduced in the trace)
+	NilRx bool              `json:"nilrx,omitempty"` // decoded through a nil receiver
 }
 
 type proj struct {
@@ -154,6 +157,13 @@ func projectVector(fam string, lvl byte, s string) string {
 // deep = also views, projections and the re-decode (only meaningful for accepted strings).
 func decodeFull(fam string, lvl byte, raw string, deep bool) (ev *decEvent) {
 	ev = &decEvent{K: "dec", Fam: fam, Lvl: string(lvl), S: asciiSafe(raw), Sent: []string{}}
+	if len(raw) > 300 {
+		// too long for the trace: identified by length and hash; only panic / object-xor-error are judged
+		h := fnv.New64a()
+		h.Write([]byte(raw))
+		ev.S = fmt.Sprintf("<%d bytes, fnv %016x>", len(raw), h.Sum64())
+		ev.Long = true
+	}
 	defer func() {
 		if r := recover(); r != nil {
 			ev.Panic = true
@@ -329,22 +339,33 @@ func evBody(ev any) string {
 // ---------------------------------------------------------------------------
 // input generators
 // ---------------------------------------------------------------------------
+// omitChoice: which of the X-valued optional metrics are left out: none, all, or a seeded subset
+func omitChoice(rng *rand.Rand, xm uint32) uint32 {
+	switch rng.Intn(4) {
+	case 0:
+		return 0
+	case 1:
+		return xm
+	}
+	return xm & uint32(rng.Int63())
+}
+
 func randValidV3(rng *rand.Rand, lvl byte) (string, string) {
 	var v v3Vec
 	upto := levelUpto["v3"][lvl]
+	allX := rng.Intn(5) == 0 // every optional metric Not Defined
 	for i := 0; i < upto; i++ {
 		v[i] = uint8(rng.Intn(len(v3Defs[i].Codes)))
-		if i >= 8 && rng.Intn(3) == 0 {
+		if i >= 8 && (allX || rng.Intn(3) == 0) {
 			v[i] = 0
 		}
 	}
 	ver := v3Versions[rng.Intn(2)].Label
-	omit := xMask(&v, 8, upto) & uint32(rng.Int63())
-	toks := v3Tokens(&v, upto, omit)
+	toks := v3Tokens(&v, upto, omitChoice(rng, xMask(&v, 8, upto)))
 	s1 := v3Join(ver, permuteMaybe(rng, toks))
-	// a second spelling of the same token set: other order, other X spelling
-	omit2 := xMask(&v, 8, upto) & uint32(rng.Int63())
-	s2 := v3Join(ver, permute(rng, v3Tokens(&v, upto, omit2)))
+	// a second spelling of the same token set: other order, other X spelling (the metrics of
+	// the levels above lvl are Not Defined and may be spelled out as well)
+	s2 := v3Join(ver, permute(rng, v3Tokens(&v, 22, omitChoice(rng, xMask(&v, 8, 22)))))
 	return s1, s2
 }
 
@@ -436,6 +457,8 @@ func cmdLang(args []string) {
 	nedit := fs.Int("edits", 30000, "seeded random edits of valid vectors")
 	nbytes := fs.Int("bytes", 10000, "seeded random byte strings")
 	deepAll := fs.Bool("deep", true, "record views / projections / re-decode for accepted strings")
+	nilrecv := fs.Bool("nilrecv", false, "decode every input through nil receivers as well (C12)")
+	long := fs.Int("long", 0, "number of long pathological inputs (up to 8 MiB, thousands of separators)")
 	fs.Parse(args)
 	var inputs []string
 	if *in != "" {
@@ -470,6 +493,16 @@ func cmdLang(args []string) {
 			inputs = append(inputs, randValidV2(rng, lvl))
 		}
 	}
+	if *fam == "v3" && *nvalid > 0 {
+		// systematically: every (version, base vector) with no optional metric written against
+		// the same vector with every optional metric spelled X
+		for i := 0; i < v3BaseCount()*2; i++ {
+			var v v3Vec
+			v3SetFromIndex(&v, 0, v3NBase, i/2)
+			ver := v3Versions[i%2].Label
+			pairs = append(pairs, pairT{v3Join(ver, v3Tokens(&v, 8, 0)), v3Join(ver, permuteMaybe(rng, v3Tokens(&v, 22, 0)))})
+		}
+	}
 	for i := 0; i < *nedit; i++ {
 		var s string
 		if *fam == "v3" {
@@ -486,6 +519,36 @@ func cmdLang(args []string) {
 		inputs = append(inputs, randBytes(rng))
 	}
 	inputs = append(inputs, pathological...)
+	for i := 0; i < *long; i++ {
+		var s string
+		valid := "CVSS:3.1/AV:N/AC:L/PR:N/UI:N/S:U/C:H/I:H/A:H"
+		if *fam == "v2" {
+			valid = "AV:N/AC:L/Au:N/C:P/I:P/A:C"
+		}
+		switch i % 8 {
+		case 0:
+			s = strings.Repeat("/", 1000+rng.Intn(100000))
+		case 1:
+			s = strings.Repeat(":", 1000+rng.Intn(100000))
+		case 2:
+			s = valid + strings.Repeat("/E:X", 1000+rng.Intn(50000))
+		case 3:
+			s = valid + "/" + strings.Repeat("A", 1<<20+rng.Intn(7<<20))
+		case 4:
+			s = strings.Repeat(valid+"/", 500+rng.Intn(20000))
+		case 5:
+			s = "CVSS:" + strings.Repeat("3.1:", 1000+rng.Intn(100000))
+		case 6:
+			b := make([]byte, 1<<20+rng.Intn(1<<20))
+			for j := range b {
+				b[j] = byte(rng.Intn(256))
+			}
+			s = string(b)
+		default:
+			s = valid + strings.Repeat("/XX:"+strings.Repeat("Y", rng.Intn(50)), 1000+rng.Intn(30000))
+		}
+		inputs = append(inputs, s)
+	}
 	// de-duplicate inputs
 	sort.Strings(inputs)
 	uniq := inputs[:0]
@@ -510,6 +573,18 @@ func cmdLang(args []string) {
 			recs[w].Add(evBody(ev), "Decode")
 		}
 	})
+	if *nilrecv {
+		// the same inputs through typed nil receivers (sequentially: the switch is global)
+		useNilReceiver = true
+		for i := range inputs {
+			for _, lvl := range lvls {
+				ev := decodeFull(*fam, lvl, inputs[i], false)
+				ev.NilRx = true
+				recs[0].Add(evBody(ev), "(*T)(nil).Decode")
+			}
+		}
+		useNilReceiver = false
+	}
 	// pairs: two spellings of one token set must be indistinguishable (C09)
 	parallelFor(len(pairs), workers, func(w, i int) {
 		p := pairs[i]
